@@ -86,6 +86,8 @@ package asn1parser
 //@   ensures[C06] content: err == nil ==> forall a int :: {elem(ret, a)} offset(ret) <= a && a < offset(ret) + byteSize ==> elem(ret, a) == old(at(reader, a - offset(ret)))
 //@   ensures pos(reader) >= old(pos(reader))
 
+//@ dead PeekExpectedBytes return3
+
 //@ func PeekExpectedBytes
 //@   props C07
 //@   requires readerOK(reader)
